@@ -3,13 +3,11 @@ C15, schema 1.x tracks: the public track operations as ONE step function over
 the track model of `EngineModel/TracksV1/{Model,Accessors}.lean`.
 
 This file adds nothing to what those operations compute: `step` dispatches to
-`dbCreate` / `dbUpdate` / `dbSnap` / `dbGet` / `dbSet` / `getDerived` (written
-by the tracks-1.x work-package, tied there and here) and adds only
+`dbCreate` / `dbUpdate` / `dbSnap` / `dbGet` / `dbSet` / `getDerived` /
+`dbRemove` / `dbIsValid` (written by the tracks-1.x work-package, tied there and
+here; they include what a call through the handle of a removed track does) and
+adds only
 
-* `remove`   — `database::remove_track` as far as the Track table goes
-               (`DELETE FROM Track WHERE id = ?`),
-* `isValid`  — `track::is_valid()` (`SELECT COUNT(*) FROM Track WHERE id = ?`
-               with its two-way test),
 * `handleId` / `handleCopy` — `track::id()` and copy / assignment / destruction
                of a handle: a handle is a value (`shared_ptr` to an impl that
                holds the id); none of the three touches the database.
@@ -44,16 +42,6 @@ inductive Out where
   | val (f : Field) (v : f.ty)
   | bytes (b : Bytes)
 
-/-- `DELETE FROM Track WHERE id = ?` (no row: nothing happens, no exception). -/
-def remove (d : Db) (id : Int) : Db := { d with tracks := d.tracks.filter fun e => !(e.1 == id) }
-
-/-- `track::is_valid()`. -/
-def isValid (d : Db) (id : Int) : Res Bool :=
-  let n := (d.tracks.filter fun e => e.1 == id).length
-  if n == 1 then .ok true
-  else if n > 1 then .throw (.dj "track_database_inconsistency")
-  else .ok false
-
 def step (o : FOps) (d : Db) : Op → Db × Res Out
   | .create x =>
     match dbCreate o d x with
@@ -84,12 +72,8 @@ def step (o : FOps) (d : Db) : Op → Db × Res Out
     | .ok d' => (d', .ok .unit)
     | .throw e => (d, .throw e)
     | .ub u => (d, .ub u)
-  | .remove id => (remove d id, .ok .unit)
-  | .isValid id =>
-    match isValid d id with
-    | .ok b => (d, .ok (.bool b))
-    | .throw e => (d, .throw e)
-    | .ub u => (d, .ub u)
+  | .remove id => (dbRemove d id, .ok .unit)
+  | .isValid id => (d, .ok (.bool (dbIsValid d id)))
   | .handleId id => (d, .ok (.id id))
   | .handleCopy id => (d, .ok (.id id))
 
@@ -121,11 +105,27 @@ inside `int64_t`. -/
 def rowsOk (r : TrackRows) : Bool :=
   mulFits 1000 r.track.length && mulFits 1000000000 (cell 1 r.mint)
 
-def dbOk (d : Db) : Bool := d.tracks.all fun e => rowsOk e.2
-
-/-- The one law of double arithmetic the 1.x setters need (`set_bpm`:
-`static_cast<int64_t>(std::ceil(bpm))` behind `fabs(bpm) < 2^63`): rounding up
-keeps a magnitude below 2^63 below 2^63. -/
+/-- A sufficient form of the one law of double arithmetic the 1.x setters need (`set_bpm`:
+`static_cast<int64_t>(std::ceil(bpm))` behind `fabs(bpm) < 2^63`; the law itself is
+`TracksV1.Spec.CeilInRange`): rounding up keeps a magnitude below 2^63 below 2^63. -/
 def CeilBounded (o : FOps) : Prop := ∀ b, Fl.absLt63 b = true → Fl.absLt63 (o.ceil b) = true
+
+/-- IEEE-754 `ceil` on binary64 bit patterns (round toward +∞ to an integral value). -/
+def ceilBits (x : F64.Bits) : F64.Bits :=
+  let n := x.toNat
+  let a := n % 9223372036854775808            -- magnitude bits
+  let e := a / 4503599627370496               -- biased exponent
+  if e ≥ 1075 then x                          -- already integral (or inf / NaN)
+  else if e < 1023 then                       -- |x| < 1
+    if a = 0 then x else if n ≥ 9223372036854775808 then F64.negZero else F64.one
+  else
+    let frac := a % 2 ^ (1075 - e)            -- bits below the binary point
+    if frac = 0 then x
+    else if n ≥ 9223372036854775808 then UInt64.ofNat (n - frac)   -- negative: toward zero
+    else UInt64.ofNat (n - frac + 2 ^ (1075 - e))                  -- positive: next integer (carry into the exponent)
+
+
+/-- the double arithmetic of a run with the bit-exact `ceil` -/
+def withExactCeil (o : FOps) : FOps := { o with ceil := ceilBits }
 
 end EngineModel.Api.C15TracksV1
